@@ -51,6 +51,8 @@ def build(s):
         return MomentGridder()
     if k == "knn":
         return vd.KNeighbors(k=s[1], reduction=REDS[s[2]])
+    if k == "spline":
+        return vd.Spline(damping=s[1], mindist=s[2])
     if k == "block_reduce":
         _, region, shape, spacing, adjust, red, centre, drop = s
         return vd.BlockReduce({"mean": np.mean, "median": np.median, "sum": np.sum, "min": np.min, "max": np.max, "average": np.average}[red],
@@ -67,7 +69,13 @@ def build(s):
     raise ValueError(k)
 
 
+def _has_spline(spec):
+    return spec[0] == "spline" or (spec[0] in ("chain", "vector") and any(_has_spline(x) for x in spec[1]))
+
+
 def mk(spec, coords, data, weights, q, kind):
+    if _has_spline(spec):      # splines are outside the exact step models of this property: composite versus its parts is checked by the oracle
+        return {"fn": "compose", "kind": kind, "args": [spec, coords, data, weights, q], "op": "power_comb 0", "key": repr((spec, coords, data, weights))}
     if any(v != v for d in data for v in d):      # NaN readings: outside the exact model; checked by the oracle (composite versus its parts) only
         return {"fn": "compose", "kind": kind, "args": [spec, coords, data, weights, q], "op": "power_comb 0",
                 "key": repr((spec, coords, [[None if v != v else v for v in d] for d in data]))}
@@ -171,6 +179,13 @@ def generate(rng, tier):
             spec = ["chain", rand_steps(rng, reg, npts, ncomp, weighted)]
         tag = ""
         u = rng.random()
+        if 0.2 <= u < 0.3 and ncomp == 1:
+            # (damped) splines anywhere in the chain, also where their residual feeds a later step
+            sp = lambda: ["spline", rng.choice([1e-3, 1e-2, 1e-1]), rng.choice([0.0, 0.5])]  # noqa: E731
+            steps = rng.choice([[["trend", 1], sp(), ["knn", rng.randint(1, 3), "mean"]], [sp(), ["trend", 1]], [["moment"], sp(), ["moment"]],
+                                [["trend", 0], ["chain", [sp(), ["knn", 1, "mean"]]], ["trend", 1]], [sp(), sp()]])
+            spec = ["chain", steps]
+            tag = "-spline-steps"
         if u < 0.08:
             # repeated measurements: the same location occurs again with another value (and weight)
             for j in range(rng.randint(1, 3)):
